@@ -248,7 +248,8 @@ payload_st = st.one_of(
 accept_st = st.sampled_from([
     None, '', 'gzip', 'deflate', 'gzip, deflate', 'deflate, gzip', 'gzip;q=0.5, deflate;q=1.0',
     'br', 'br, gzip', 'identity', '*', ' gzip ', 'GZIP', 'gzip,deflate,br', 'deflate;q=0',
-    'gzipp', 'x-gzip', 'gzip;q=0', 'compress, deflate'])
+    'gzipp', 'x-gzip', 'gzip;q=0', 'compress, deflate', 'pack200-gzip', 'x-deflate', 'gzip-2',
+    'br, not-deflate', 'my_gzip'])
 e2e_st = st.tuples(st.sampled_from(['thread', 'async']),
                    st.lists(payload_st, min_size=1, max_size=4), accept_st, st.booleans(),
                    st.sampled_from(['zero', 'len-1', 'len', 'len+1', 'default', 'huge']),
